@@ -5,7 +5,7 @@ import runner
 from props.parts import cratesv2 as cv
 
 ID = "C09"
-LEAN_MODULES = ["Properties.C09"]
+LEAN_MODULES = ["Properties.C09", "Properties.C09Schema"]
 THEOREMS = ["EngineModel.Properties.C09." + t for t in [
     "C09_walk_lists_every_item_once_in_order",
     "C09_listing_covers_exactly_the_rows",
@@ -25,6 +25,8 @@ THEOREMS = ["EngineModel.Properties.C09." + t for t in [
     "C09_new_or_moved_crate_is_last",
     "C09_add_back_identity_includes_database",
     "C09_history_counterexample",
+    "C09_crate_ddl_same_in_all_2x_schemas",
+    "C09_crate_ddl_nonempty",
 ]]
 ASSUMPTIONS = [
     "SqliteSemantics: the hand translation of the SQL statements and of the Playlist / PlaylistEntity triggers into list "
@@ -52,7 +54,8 @@ MANIFEST = dict(
     technique="Lean 4 representation-relation / simulation proof over an executable model + differential replay with "
               "raw-table observation + Spec oracle on the implementation's answers",
     ref="6/C09")
-TRUSTED_EXTRA = []
+TRUSTED_EXTRA = ["tools/tr_v2ddl.py (catalog of every created 2.x version -> Lean data; DDL canonicalised by the compiled Spec/SqlCanon.canon)"]
+TRANSLATORS = {"v2ddl": cv.translate_ddl}
 STATELESS = False
 
 
